@@ -71,6 +71,7 @@ type envState struct {
 	cronEntries int
 	pointHits   map[string]int
 	crashWindow int
+	crashCommits bool
 	acked       bool
 }
 
